@@ -24,12 +24,16 @@ func run(p qbftsim.Prog) *prog.Result {
 		value []byte
 		who   string
 	}
+	firsts := map[specqbft.Height]*obs{}
 	var first *obs
 	reproposed := false
 	check := func(ev *qbftsim.Event) bool {
+		seeH := s.Height
 		see := func(v []byte, who string) bool {
+			first = firsts[seeH]
 			if first == nil {
 				first = &obs{v, who}
+				firsts[seeH] = first
 				return true
 			}
 			if !bytes.Equal(first.value, v) {
@@ -40,9 +44,11 @@ func run(p qbftsim.Prog) *prog.Result {
 			return true
 		}
 		if ev.Returned != nil {
-			if !see(ev.Returned.FullData, fmt.Sprintf("op%d (decided message returned by ProcessMsg at event %d)", ev.Op, len(s.Events))) {
+			seeH = ev.Returned.Message.Height
+			if !see(ev.Returned.FullData, fmt.Sprintf("op%d (decided message for height %d returned by ProcessMsg at event %d)", ev.Op, seeH, len(s.Events))) {
 				return false
 			}
+			seeH = s.Height
 		}
 		if ev.After.Decided {
 			if !see(ev.After.Value, fmt.Sprintf("op%d (instance state after event %d)", ev.Op, len(s.Events))) {
@@ -63,6 +69,7 @@ func run(p qbftsim.Prog) *prog.Result {
 		}
 	}
 	// final sweep over all instances (also those not touched by the last events)
+	first = firsts[s.Height]
 	for id, v := range s.DecidedValues() {
 		if first != nil && !bytes.Equal(first.value, v) {
 			res.Fail = prog.Failf("C01:disagreement", "op%d decided %s, %s reported %s\nlog:\n%s", id, qbftsim.ValueName(v), first.who, qbftsim.ValueName(first.value), s.Dump())
@@ -96,7 +103,7 @@ func run(p qbftsim.Prog) *prog.Result {
 }
 
 func gen(t *rapid.T) qbftsim.Prog {
-	return qbftsim.Gen(t, qbftsim.GenOpts{Ns: []int{4, 4, 4, 7}, MaxOps: 40})
+	return qbftsim.Gen(t, qbftsim.GenOpts{Ns: []int{4, 4, 4, 7}, MaxOps: 40, MultiHeight: true, NetFaults: true})
 }
 
 func genBig(t *rapid.T) qbftsim.Prog {
